@@ -23,6 +23,9 @@ func init() {
 	generators["c10"] = genC10
 	generators["c11"] = genC11
 	generators["c12"] = genC12
+	generators["c12accept"] = genC12accept
+	generators["c12slowstop"] = genC12slowstop
+	generators["c11accept"] = genC11accept
 	generators["c13"] = genC13
 	generators["c17"] = genC17
 }
@@ -407,6 +410,60 @@ func genC11(g *Gen) {
 	}
 }
 
+// C11 (continued): Stop after descriptor exhaustion at accept time
+func genC11accept(g *Gen) {
+	for _, n := range []int{1, 2} {
+		s := newScen("fixed")
+		s.op("run 1 1")
+		for i := 0; i < n; i++ {
+			s.op("accepterr")
+		}
+		s.send(0, s.req("normal", "w"))
+		s.op("close 0")
+		s.op("stop")
+		s.emit(g)
+	}
+}
+
+// C12 (continued): a connection that Accept has handed over when Stop is called - the Run
+// goroutine is held between Accept and newConn - is waited for like any other
+func genC12accept(g *Gen) {
+	for _, held := range []bool{true, false} {
+		s := newScen("fixed")
+		s.op("run 1 1")
+		if !held {
+			s.op("connect") // an ordinary connection beside it
+			s.send(0, s.req("normal", "w"))
+		}
+		s.op("parkaccept 1")
+		s.op("connect") // accepted, not yet set up
+		if held {
+			s.op("holdonclose 1")
+		}
+		s.op("stop")
+		s.op("parkaccept 0")
+		if held {
+			s.op("holdonclose 0")
+		}
+		s.emit(g)
+	}
+}
+
+// C12/C15: the same, with Stop slow between its interrupt pass and connWg.Wait, so that the
+// accepted connection is counted and torn down to its (held) OnClose while Stop is on its way to Wait
+func genC12slowstop(g *Gen) {
+	s := newScen("fixed:stopdelay=600")
+	s.op("run 1 1")
+	s.op("holdonclose 1")
+	s.op("parkaccept 1")
+	s.op("connect")
+	s.op("stop")
+	s.op("parkaccept 0")
+	s.op("sleep 700") // Stop reaches connWg.Wait while the connection is still in its OnClose
+	s.op("holdonclose 0")
+	s.emit(g)
+}
+
 // C12: orders of Stop relative to Run, held OnClose, held handlers
 func genC12(g *Gen) {
 	// Stop before Run; Run afterwards must return and leave the port free
@@ -488,6 +545,29 @@ func genC13(g *Gen) {
 			s.emit(g)
 		}
 	}
+	// Stop while upgraded sessions are open: whatever the server still sends is inside TLS records
+	s0 := newScen("fixed")
+	s0.op("run 1 1")
+	s0.op("connect")
+	s0.op("connect")
+	for c := 0; c < 2; c++ {
+		s0.send(c, s0.req("starttls", "w", "hs"))
+		s0.send(c, "hello")
+		s0.send(c, s0.req("normal", "w"))
+	}
+	s0.op("stop")
+	s0.emit(g)
+	// an upgraded session that lasts: requests keep being answered inside the tunnel
+	s1 := newScen("fixed")
+	s1.op("run 1 1")
+	s1.op("connect")
+	s1.send(0, s1.req("starttls", "w", "hs"))
+	s1.send(0, "hello")
+	s1.send(0, s1.req("normal", "w"))
+	s1.op("sleep 5500")
+	s1.send(0, s1.req("normal", "w"), s1.req("normal", "w"))
+	s1.op("stop")
+	s1.emit(g)
 	// a pipelined request right behind StartTLS is not consumed before the handler returns
 	s := newScen("fixed")
 	s.op("run 1 1")
